@@ -9,7 +9,9 @@ ops:  build <blockSize> <bloom 0|1> <bitsPerKey> <u:ver:val,...>   (entries in b
       seek asc|desc <u> <ver> <n> Seek + up to n Next
       scan asc|desc               Rewind + Next…
       reopen                      close the file handle, drop caches, open the file again
-      corrupt <blk> <byte> <bit>  close, flip one bit of the table file inside data block blk, reopen;
+      buildnc …                   like build, block cache disabled and table on level 2
+      corruptlive <blk> <pos> <bit>  like corrupt but the table stays open (only after buildnc)
+      corrupt <blk> <byte|e<k>> <bit>  (e<k> = k bytes before the block's last byte) close, flip one bit of the table file inside data block blk, reopen;
                                   from then on every load of that block is an error (spec: a read
                                   answers an error/none or original data, never anything else)
 -/
@@ -23,7 +25,9 @@ structure St where
   t : Table := { blocks := [], bloomOn := false, nBits := 64, k := 1, filter := [] }
   ents : List SEntry := []
   built : Bool := false
+  uncached : Bool := false   -- built with the block cache disabled, on level 2
   bad : Option Nat := none   -- index of the block whose bytes were corrupted in the file
+  badPanics : Bool := false  -- loading that block panics (flipped checksum-length field past the as-is guard)
 
 def setCfg (st : St) (kv : String) : Option St :=
   match kv.splitOn "=" with
@@ -35,6 +39,11 @@ def setCfg (st : St) (kv : String) : Option St :=
     | "sst.blkFwdOp" => do let o ← CmpOp.ofString? v; pure { st with c := { st.c with blkFwdOp := o } }
     | "sst.blkRevOp" => do let o ← CmpOp.ofString? v; pure { st with c := { st.c with blkRevOp := o } }
     | "sst.searchVsOp" => do let o ← CmpOp.ofString? v; pure { st with c := { st.c with searchVsOp := o } }
+    | "sst.verifyEveryLoad" => do let b ← boolOfString? v; pure { st with c := { st.c with verifyEveryLoad := b } }
+    | "sst.chkLenGuard" =>
+        if v == "readPos" then some { st with c := { st.c with chkLenGuardReadPos := true } }
+        else if v == "len" then some { st with c := { st.c with chkLenGuardReadPos := false } }
+        else none
     | "sst.verifyBeforeCache" => do let b ← boolOfString? v; pure { st with c := { st.c with verifyBeforeCache := b } }
     | "sst.bloomSameProjection" => do let b ← boolOfString? v; pure { st with c := { st.c with bloomSameProjection := b } }
     | _ => none
@@ -83,32 +92,73 @@ def seekRevBad (c : SstCfg) (key : Bytes) (blocks : List Block) (bad : Nat) : Li
     else if j = bad then []
     else seekRev c key (blocks.drop (bad + 1))
 
+/-- what a read that would reach the bad block after `avail` answers: a load error ends the
+iteration after the available entries; a panicking load aborts the whole call when the iteration
+gets that far (`Next` runs once more after the n-th entry) -/
+def badRead (panics reachable : Bool) (avail : List SEntry) (n : Option Nat) : String :=
+  let crosses := match n with
+    | none => true
+    | some n => decide (avail.length ≤ n)
+  if panics && reachable && crosses then "panic"
+  else entsStr (match n with | none => avail | some n => avail.take n)
+
+/-- position of the flipped byte inside a block of `len` bytes: `e<k>` = k bytes before the last one -/
+def flipPos? (tok : String) (len : Nat) : Option Nat :=
+  if len = 0 then none
+  else if tok.startsWith "e" then (natOf? (tok.drop 1).toString).map (fun k => len - 1 - k % len)
+  else (natOf? tok).map (fun k => k % len)
+
 /-- all prefixes of a result, as spec alternatives ("an error may cut the iteration short, but
 whatever is returned is original data") -/
 def prefixAlts (l : List SEntry) : String :=
   "|".intercalate ((List.range (l.length + 1)).map (fun n => entsStr (l.take n)))
 
+def doBuild (st : St) (op bs bloom bpk ents : String) : St × String :=
+  if op != "build" && op != "buildnc" then (st, "bad-op") else
+  match natOf? bs, natOf? bloom, natOf? bpk, (ents.splitOn ",").mapM parseEnt? with
+  | some bs, some bloom, some bpk, some es =>
+    let k := min (max (bpk * 69 / 100) 1) 30
+    let t := buildTable st.c modelHash bs (bloom == 1) bpk k es
+    ({ st with t := t, ents := es, built := true, bad := none, badPanics := false, uncached := (op == "buildnc") },
+      s!"ok:{es.length}\tok:{es.length}")
+  | _, _, _, _ => (st, "bad-op")
+
+def doCorrupt (st : St) (op b pos bit : String) : St × String :=
+  if op != "corrupt" && op != "corruptlive" then (st, "bad-op") else
+  -- corruptlive: the bit is flipped while the table stays open; only on tables whose reads all
+  -- miss the cache (buildnc), where the as-is code verifies every load
+  if op == "corruptlive" && !st.uncached then (st, "bad-op") else
+  match natOf? b, natOf? bit with
+  | some b, some bit =>
+    let n := st.t.blocks.length
+    let bi := b % (max n 1)
+    let len := blockBytes (st.t.blocks.getD bi [])
+    match flipPos? pos len with
+    | none => (st, "bad-op")
+    | some off =>
+      let panics := decide (off ≥ len - 4) &&
+        decide (chkLenStep st.c len (flippedChkLen (off - (len - 4)) (bit % 8)) = .panic)
+      -- reopening reads the last block (max key): a panicking last block kills the open
+      if op == "corrupt" && panics && bi + 1 == n then ({ st with built := false }, "panic\tok")
+      else ({ st with bad := some bi, badPanics := panics }, "ok\tok")
+  | _, _ => (st, "bad-op")
+
 def step (st : St) (toks : List String) : St × String :=
-  if !st.built && toks.head? != some "cfg" && toks.head? != some "build" then (st, "no-table\tno-table") else
+  if !st.built && toks.head? != some "cfg" && toks.head? != some "build" && toks.head? != some "buildnc" then (st, "no-table\tno-table") else
   match toks with
   | "cfg" :: kvs =>
     match kvs.foldlM setCfg st with
     | some st' => (st', "ok")
     | none => (st, "bad-cfg")
-  | ["build", bs, bloom, bpk, ents] =>
-    match natOf? bs, natOf? bloom, natOf? bpk, (ents.splitOn ",").mapM parseEnt? with
-    | some bs, some bloom, some bpk, some es =>
-      let k := min (max (bpk * 69 / 100) 1) 30
-      let t := buildTable st.c modelHash bs (bloom == 1) bpk k es
-      ({ st with t := t, ents := es, built := true, bad := none }, s!"ok:{es.length}\tok:{es.length}")
-    | _, _, _, _ => (st, "bad-op")
+  | ["build", bs, bloom, bpk, ents] => doBuild st "build" bs bloom bpk ents
+  | ["buildnc", bs, bloom, bpk, ents] => doBuild st "buildnc" bs bloom bpk ents
   | ["blocks"] =>
-    (st, ",".intercalate (st.t.blocks.map (fun b => keyStr (baseKey b))) ++ "\t*")
-  | ["reopen"] => (st, "ok\tok")
-  | ["corrupt", b, _, _] =>
-    match natOf? b with
-    | some b => ({ st with bad := some (b % (max st.t.blocks.length 1)) }, "ok\tok")
-    | none => (st, "bad-op")
+    (st, ",".intercalate (st.t.blocks.map (fun b => keyStr (baseKey b) ++ ":" ++ toString (blockBytes b))) ++ "\t*")
+  | ["reopen"] =>
+    if st.badPanics && st.bad == some (st.t.blocks.length - 1) then ({ st with built := false }, "panic\tok")
+    else (st, "ok\tok")
+  | ["corrupt", b, pos, bit] => doCorrupt st "corrupt" b pos bit
+  | ["corruptlive", b, pos, bit] => doCorrupt st "corruptlive" b pos bit
   | ["get", u, v] =>
     match bytesOf? u, natOf? v with
     | some u, some v =>
@@ -117,7 +167,7 @@ def step (st : St) (toks : List String) : St × String :=
         | none => optStr (search st.c modelHash st.t k)
         | some bad =>
           match seekFwdBad st.c k st.t.blocks bad with
-          | [] => "none"
+          | [] => if st.badPanics && decide ((startBlock st.c k st.t.blocks).getD 0 ≤ bad) then "panic" else "none"
           | e :: _ => if sameKey k e.1 && st.c.searchVsOp.nat 0 (verOf e.1) then valStr e.2 else "none"
       -- spec: first entry at or after the key; answered when it has the same user key
       let r := match st.ents.dropWhile (fun e => klt e.1 k) with
@@ -130,12 +180,18 @@ def step (st : St) (toks : List String) : St × String :=
     | some u, some v, some n =>
       let k := mkKey IdxCfg.good u v
       let asc := dir == "asc"
-      let m := match st.bad with
-        | none => if asc then seekFwd st.c k st.t.blocks else seekRev st.c k st.t.blocks
-        | some bad => if asc then seekFwdBad st.c k st.t.blocks bad else seekRevBad st.c k st.t.blocks bad
+      let ms := match st.bad with
+        | none => entsStr ((if asc then seekFwd st.c k st.t.blocks else seekRev st.c k st.t.blocks).take n)
+        | some bad =>
+          if asc then
+            badRead st.badPanics (decide ((startBlock st.c k st.t.blocks).getD 0 ≤ bad)) (seekFwdBad st.c k st.t.blocks bad) (some n)
+          else
+            match startBlock st.c k st.t.blocks with
+            | none => "-"
+            | some j => badRead st.badPanics (decide (j ≥ bad)) (seekRevBad st.c k st.t.blocks bad) (some n)
       let r := if asc then st.ents.dropWhile (fun e => klt e.1 k)
                else (st.ents.takeWhile (fun e => !klt k e.1)).reverse
-      (st, entsStr (m.take n) ++ "\t" ++ (if st.bad.isSome then prefixAlts (r.take n) else entsStr (r.take n)))
+      (st, ms ++ "\t" ++ (if st.bad.isSome then prefixAlts (r.take n) else entsStr (r.take n)))
     | _, _, _ => (st, "bad-op")
   | ["scan", dir] =>
     let asc := dir == "asc"
@@ -143,7 +199,7 @@ def step (st : St) (toks : List String) : St × String :=
     | none => (st, entsStr (scan st.t asc) ++ "\t" ++ entsStr (if asc then st.ents else st.ents.reverse))
     | some bad =>
       let m := if asc then (st.t.blocks.take bad).flatten else ((st.t.blocks.drop (bad + 1)).flatten).reverse
-      (st, entsStr m ++ "\t" ++ prefixAlts (if asc then st.ents else st.ents.reverse))
+      (st, badRead st.badPanics true m none ++ "\t" ++ prefixAlts (if asc then st.ents else st.ents.reverse))
   | _ => (st, "bad-op")
 
 def main : IO Unit := Driver.loop ({} : St) step
